@@ -11,8 +11,13 @@
                                      (oracle signature reset-reinject-leaves-gap-in-pending; reachable on a
                                      self-consistent chain, directed history in the harness);
                                      the affordability half IS proved (C15_pending_affordable, with the
-                                     soundness of the cached ceilings C15_caps_sound); the ordering half
-                                     pending_executable_partial (no nonce-lowering reinjection) is NOT proved yet;
+                                     soundness of the cached ceilings C15_caps_sound); of the ordering half
+                                     only C15_pending_limit_keeps_run_partial is proved (the pending-limit loops of
+                                     promoteExecutables keep every pending run gap-free and State().GetNonce in step);
+                                     the full pending_executable_partial (pendingNonce = cur + len after every
+                                     operation without nonce-lowering reinjection) is NOT proved: it additionally
+                                     needs nonce bounds (uint64 wrap of nonce+1), strictness of pending lists and a
+                                     pass over removeTx / promoteTx / add;
      2. unique_nonce p            — proved (C15_unique_nonce);
         all_is_union p            — proved (C15_all_is_union) since the /repo fix "removeTx re-queues
                                      invalidated successors also when the pending list becomes empty";
@@ -86,6 +91,23 @@ Theorem C15_caps_sound : forall (h : list (oracle * op)) (c : cfg) (gp : Z) (cur
   (forall a l, assoc a (queue p') = Some l -> Forall (fun t => tcost t <= costcap l /\ tgas t <= gascap l) (items l)).
 Proof. intros h c gp cur0 gas0 p' H. exact (proj1 (affordable_invariant h c gp cur0 gas0 p' H)). Qed.
 Print Assumptions C15_caps_sound.
+
+(* 1, ordering half, PARTIAL.  Full statement wanted: for every history without nonce-lowering reinjection,
+      pn_ok holds after every operation (pending nonces = the run from the chain nonce, State().GetNonce = chain
+      nonce + length of the run).  Proved here: the part of promoteExecutables that enforces GlobalSlots (both
+      loops: equalisation of offenders of different sizes and reduction to the minimum allowance, any oracle for
+      the priority-queue ties and map order) preserves pn_ok — every sender that is cut back gets its virtual nonce
+      lowered to the dropped transaction. *)
+Theorem C15_pending_limit_keeps_run_partial : forall (o : oracle) (p p' : pool),
+  pn_ok p -> pe_pending_limit o p = Ok p' -> pn_ok p'.
+Proof. exact pe_pending_limit_pn. Qed.
+Print Assumptions C15_pending_limit_keeps_run_partial.
+
+Example C15_pending_limit_example :
+  exists p, run (new_pool cfg_slots 1 [(0, (0, 1000000000)); (1, (0, 1000000000))] 1000000) slots_history = Ok p /\
+            map (fun kv => (fst kv, map tnonce (items (snd kv)))) (pending p) = [(0, [0; 1]); (1, [0; 1])] /\
+            pn_get p 0 = 2 /\ pn_okb p [0; 1] = true.
+Proof. exact slots_history_runs. Qed.
 
 (* 1 refuted: a reachable state whose pending list has a gap (nonces 0,2,3 with state nonce 0) *)
 Theorem C15_pending_executable_refuted :
